@@ -168,6 +168,9 @@ type Codec struct {
 	DecTail  bool
 	Problems []Problem
 	IEIConst map[string]int64 // IE -> value of <Msg><IE>Type constant, from the case clauses
+	// ByImages: E1 could not classify this message's functions; every wire image of the message was
+	// decided by evaluation and reproduced (codec_sem.go), which stands in for the slot rules
+	ByImages bool
 }
 
 type Problem struct {
@@ -188,6 +191,7 @@ type CodecSet struct {
 	writeOverride map[ast.Stmt]ast.Expr
 	writeSkip     map[ast.Stmt]bool
 	guardAlias    map[types.Object]ast.Expr
+	skipped       int // messages taken out of the slot rules by applyImages
 }
 
 // ExtractCodecs finds every struct type M in nasMessage with methods EncodeM(*bytes.Buffer) error
